@@ -167,15 +167,25 @@ def include_flags(cfgdir):
 
 
 def _prune(keep_hash):
-    """remove build trees of other source hashes: everything older than 3 hours, and beyond the 10 most recent"""
+    """remove build trees of other source hashes that have not been USED for 4 hours (every build_lib/build_driver call touches the
+    tree it uses), and beyond the 16 most recently used; a tree used within the last 45 minutes is never removed (a long check of
+    another tree may be running at the same time)"""
     if not os.path.isdir(BUILD):
         return
     ds = [d for d in os.listdir(BUILD) if d.startswith("src-") and d != "src-" + keep_hash]
     ds.sort(key=lambda d: os.path.getmtime(os.path.join(BUILD, d)), reverse=True)
     now = time.time()
     for i, d in enumerate(ds):
-        if i >= 10 or now - os.path.getmtime(os.path.join(BUILD, d)) > 3 * 3600:
+        age = now - os.path.getmtime(os.path.join(BUILD, d))
+        if age > 45 * 60 and (i >= 16 or age > 4 * 3600):
             shutil.rmtree(os.path.join(BUILD, d), ignore_errors=True)
+
+
+def _touch_tree(h):
+    try:
+        os.utime(os.path.join(BUILD, "src-" + h), None)
+    except OSError:
+        pass
 
 
 class BuildError(Exception):
@@ -186,6 +196,7 @@ def build_lib(variant="plain"):
     """Build libtsg.a for the current working tree; returns dict(dir, lib, cxx, cflags, ldflags)."""
     h = source_hash()
     d = os.path.join(BUILD, "src-" + h, variant)
+    _touch_tree(h)
     cxx, cflags, ldflags = VARIANTS[variant]
     cfg = os.path.join(BUILD, "src-" + h, "config")
     info = {"dir": d, "lib": os.path.join(d, "libtsg.a"), "cxx": cxx, "cfg": cfg,
